@@ -32,7 +32,7 @@ package xpath
 //@ inv parentQuery: self.Input != nil && self.Predicate != nil && !is(self.Input, *descendantOverDescendantQuery)
 //@ inv selfQuery: self.Input != nil && self.Predicate != nil && !is(self.Input, *descendantOverDescendantQuery)
 //@ inv descendantOverDescendantQuery: self.Input != nil && self.Predicate != nil && (self.level != 0 ==> self.currentNode != nil) && self.level >= 0
-//@ inv filterQuery: self.Input != nil && self.Predicate != nil
+//@ inv filterQuery: self.Input != nil && self.Predicate != nil && !is(self.Input, *descendantOverDescendantQuery)     // a filtered step must visit every candidate (repaired defect)
 //@ inv functionQuery: self.Func != nil
 //@ inv transformFunctionQuery: self.Input != nil && self.Func != nil
 //@ inv constantQuery: is(self.Val, float64) || is(self.Val, string)
@@ -1348,7 +1348,7 @@ package xpath
 //@   ensures[wf@C15] built(result0, result1)
 //@   ensures[known-axis@C17] result1 == nil ==> axisKnown(root.AxisType)
 //@ func (*builder).processFilter
-//@   props C15 C06 C17 C01 C13
+//@   props C15 C06 C17 C01 C13 C02
 //@   ensures[detached-parent-kept@C13!!] result1 == nil && bound(parent, 1) && ver(parent, 1) != nil ==> is(result0, *mergeQuery) && as(result0, *mergeQuery).Input == ver(parent, 1)     // when the first step is cut off its parent path (to count positions per parent), the parent path is put back as the input of the merge: an absolute or longer path never loses its left part
 //@   ensures[never-pruned@C01] result1 == nil ==> !is(result0, *descendantOverDescendantQuery)
 //@   requires[depth@C06] 0 <= b.parseDepth && b.parseDepth <= 1024
